@@ -125,11 +125,11 @@ def g_typed(rng):
 def g_service(rng, allow_multiple=True):
     """-> (obj 'router'|'cm', dotdict)"""
     k = rng.choice(["rt", "rf", "wt", "wf", "rtr", "rfr", "wtr", "wfr", "gaa", "gas", "gal", "sas", "gaar", "gasr",
-                    "sasr", "unk", "mu", "mur", "fo", "fol", "for", "forf", "fc", "fcr"])
+                    "sasr", "unk", "mu", "mur", "fo", "fol", "fop", "for", "forf", "fc", "fcr"])
     if k in ("mu", "mur") and not allow_multiple:
         k = "rt"
     d = dd()
-    if k in ("rt", "rf", "wt", "wf", "gaa", "gas", "gal", "sas", "mu", "fo", "fol", "fc"):
+    if k in ("rt", "rf", "wt", "wf", "gaa", "gas", "gal", "sas", "mu", "fo", "fol", "fop", "fc"):
         d.path = g_path(rng)
     if k == "rt":
         d.read_tag = {"elements": g_int(rng, 16)}
@@ -192,10 +192,9 @@ def g_service(rng, allow_multiple=True):
                  "O_vendor": g_int(rng, 16), "O_serial": g_int(rng, 32), "connection_timeout_multiplier": g_int(rng, 8),
                  "transport_class_triggers": g_int(rng, 8)})
         for side in ("O_T", "T_O"):
-            # canonical Network Connection Parameters: reserved bits clear, size >= 1; a Large Forward Open's
-            # parameters must look large (> 0xFFFF: documented limitation in defaults.Connection)
+            # canonical Network Connection Parameters: reserved bits clear, size >= 1
             if large:
-                ncp = (g_int(rng, 32) & ~0x11ff0000) | rng.choice([0x20000000, 0x40000000, 0x02000000, 0x80000000])
+                ncp = g_int(rng, 32) & ~0x11ff0000
                 if ncp & 0xffff == 0:
                     ncp |= rng.choice([1, 4000, 0xffff])
             else:
@@ -203,6 +202,20 @@ def g_service(rng, allow_multiple=True):
                 if ncp & 0x1ff == 0:
                     ncp |= rng.choice([1, 500, 0x1ff])
             fo[side] = dd({"connection_ID": g_int(rng, 32), "RPI": g_int(rng, 32), "NCP": ncp, "large": large})
+        fo.connection_path = g_path(rng)
+        d.forward_open = fo
+        return "cm", d
+    elif k == "fop":
+        # a Forward Open described by connection parameters (size, type, priority, ...) instead of NCP words, the two
+        # directions sized independently: a single direction > 511 bytes forces the Large form for both
+        fo = dd({"priority_time_tick": g_int(rng, 8), "timeout_ticks": g_int(rng, 8), "connection_serial": g_int(rng, 16),
+                 "O_vendor": g_int(rng, 16), "O_serial": g_int(rng, 32), "connection_timeout_multiplier": g_int(rng, 8),
+                 "transport_class_triggers": g_int(rng, 8)})
+        for side in ("O_T", "T_O"):
+            size = rng.choice([1, 2, 100, 510, 511, 512, 513, 4000, 0xffff, rng.randrange(1, 512), rng.randrange(512, 65536)])
+            fo[side] = dd({"connection_ID": g_int(rng, 32), "RPI": g_int(rng, 32), "size": size,
+                           "variable": rng.randrange(2), "priority": rng.randrange(4), "type": rng.randrange(4),
+                           "redundant": rng.randrange(2)})
         fo.connection_path = g_path(rng)
         d.forward_open = fo
         return "cm", d
